@@ -10,12 +10,12 @@ git apply $D/patch.diff || { echo "RESULT $PID-$N: patch does not apply"; exit 2
 cmake --build build -j8 >/dev/null 2>&1 || { echo "RESULT $PID-$N: does not build"; git checkout -q -- .; exit 2; }
 ct=$(ctest --test-dir build -j8 --timeout 900 2>&1 | grep "tests passed\|tests failed" | tail -1)
 nonmem=$(ctest --test-dir build -j8 --timeout 900 --rerun-failed 2>&1 | grep "Failed\|Timeout" | grep -v memory_test | wc -l)
-bash $D/run_demo.sh > /tmp/demo-$PID-$N-with.log 2>&1; rcw=$?
+bash $D/run_demo.sh $WT > /tmp/demo-$PID-$N-with.log 2>&1; rcw=$?
 out=$(VERIF_REPO=$WT /verif/bin/vcheck $PID 2>&1); rcc=$?
 keys=$(echo "$out" | grep -o 'key=[^ ]*' | sort -u | tr '\n' ' ')
 git apply -R $D/patch.diff
 cmake --build build -j8 >/dev/null 2>&1
-bash $D/run_demo.sh > /tmp/demo-$PID-$N-without.log 2>&1; rcwo=$?
+bash $D/run_demo.sh $WT > /tmp/demo-$PID-$N-without.log 2>&1; rcwo=$?
 S=/verif/seeded/$PID-$N
 mkdir -p $S
 cp $D/patch.diff $S/; cp -r $D/demo* $D/run_demo.sh $D/README.md $S/ 2>/dev/null
